@@ -39,9 +39,19 @@ func openDB(dir string) (*badger.DB, error) {
 	return badger.Open(badger.LSMOnlyOptions(dir).WithLogger(nil).WithSyncWrites(false))
 }
 
+// one recorder for the package: TestC06 (sequential call sequences) and TestC06Concurrent (groups written at the
+// same time) feed the same evidence
+var shared *mon.Recorder
+
+func TestMain(m *testing.M) {
+	shared = mon.Open("C06")
+	code := m.Run()
+	shared.Close()
+	os.Exit(code)
+}
+
 func TestC06(t *testing.T) {
-	rec := mon.Open("C06")
-	defer rec.Finish(t)
+	rec := shared
 	scratch := os.Getenv("VERIF_SCRATCH")
 	if scratch == "" {
 		scratch = t.TempDir()
